@@ -98,10 +98,9 @@ func (d Date) TryEqual(input Any) (bool, bool) {
 	if !ok {
 		return false, true
 	}
-	if d.l == val.l {
-		return d.date.Equal(val.date), true
-	}
-
+	// Dates carry no offset: they are compared by their calendar components, never
+	// as instants (a FHIR date element holds the midnight of whatever default
+	// time zone it was read in).
 	dComponents := d.getComponents()
 	valComponents := val.getComponents()
 
@@ -112,6 +111,9 @@ func (d Date) TryEqual(input Any) (bool, bool) {
 			continue
 		}
 		return false, true
+	}
+	if d.l == val.l {
+		return true, true
 	}
 	return false, false
 }
@@ -124,10 +126,6 @@ func (d Date) Less(input Any) (Boolean, error) {
 	if !ok {
 		return false, fmt.Errorf("%w: %T, %T", ErrTypeMismatch, d, input)
 	}
-	if d.l == val.l {
-		return Boolean(d.date.Before(val.date)), nil
-	}
-
 	dComponents := d.getComponents()
 	valComponents := val.getComponents()
 
@@ -138,6 +136,9 @@ func (d Date) Less(input Any) (Boolean, error) {
 			continue
 		}
 		return dComponents[i] < valComponents[i], nil
+	}
+	if d.l == val.l {
+		return false, nil
 	}
 	return false, ErrMismatchedPrecision
 }
